@@ -415,3 +415,43 @@ pub fn finish(meta: CheckMeta, mut st: Stats, started: Instant) -> i32 {
     }
     0
 }
+
+/// All sequences of distinct indices out of 0..n with length 0..=max_len (ordered selections).
+pub fn ordered_selections(n: usize, max_len: usize) -> Vec<Vec<usize>> {
+    let mut out = vec![vec![]];
+    let mut frontier = vec![vec![]];
+    for _ in 0..max_len {
+        let mut next = vec![];
+        for s in &frontier {
+            for i in 0..n {
+                if !s.contains(&i) {
+                    let mut t: Vec<usize> = s.clone();
+                    t.push(i);
+                    next.push(t);
+                }
+            }
+        }
+        out.extend(next.iter().cloned());
+        frontier = next;
+    }
+    out
+}
+
+/// All sequences (with repetition) out of 0..n with length 0..=max_len.
+pub fn sequences(n: usize, max_len: usize) -> Vec<Vec<usize>> {
+    let mut out = vec![vec![]];
+    let mut frontier = vec![vec![]];
+    for _ in 0..max_len {
+        let mut next = vec![];
+        for s in &frontier {
+            for i in 0..n {
+                let mut t: Vec<usize> = s.clone();
+                t.push(i);
+                next.push(t);
+            }
+        }
+        out.extend(next.iter().cloned());
+        frontier = next;
+    }
+    out
+}
